@@ -142,6 +142,29 @@ func c08Setup(c *fw.Ctx, sha256fmt bool, maxCommits int) *c08Env {
 	v1 := v0[:600000] + "an edit in the middle of the large file\n" + v0[600000:]
 	env.hists = append(env.hists, big)
 	emit(big, []map[string]string{{"large.bin": v0, "note": "first\n"}, {"large.bin": v1, "note": "second\n"}})
+	// a linear history of 60 commits: delta chains as deep as --depth allows,
+	// hundreds of objects (crowded fan-out buckets), OFS distances above 16384
+	{
+		const n = 60
+		long := &c08Hist{name: "long", commits: make([]string, n), heads: []int{n - 1}}
+		long.dag.Parents = make([][]int, n)
+		var files []map[string]string
+		doc := c08Doc(977)
+		for i := 0; i < n; i++ {
+			if i > 0 {
+				long.dag.Parents[i] = []int{i - 1}
+			}
+			doc = append([]string{}, doc...)
+			doc[(7*i+3)%len(doc)] = fmt.Sprintf("edited in commit %d of long", i)
+			files = append(files, map[string]string{
+				"doc.txt":                 strings.Join(doc, "\n") + "\n",
+				fmt.Sprintf("only-%d", i): fmt.Sprintf("file of commit %d of the long history\n", i),
+				"dir/small":               fmt.Sprintf("v%d\n", i),
+			})
+		}
+		env.hists = append(env.hists, long)
+		emit(long, files)
+	}
 	b.WriteString("done\n")
 	mf := filepath.Join(c.TempDir("c08marks"), "marks")
 	env.g.MustRunIn(b.Bytes(), "fast-import", "--quiet", "--done", "--date-format=raw", "--export-marks="+mf)
@@ -258,9 +281,10 @@ func runC08(c *fw.Ctx) {
 	c.Bound("histories", "every DAG with up to max_commits commits (<=2 parents, unordered parent sets): each commit edits one line of a 60-line file (merges take both edits) and adds small files; plus one history holding a 1.2 MiB file edited once")
 	c.Bound("pack_objects_options", "window {0,10} x depth {1,50} x delta-base-offset {off,on} (window 0: one combination); --thin against each non-head commit (window 10, depth 50, both delta kinds); pack.threads=1")
 	c.Bound("hand_built", "each two-head history's pack concatenated with itself minus header (every object twice)")
+	c.Bound("extra_histories", "a linear 60-commit history (chains up to --depth, > 256 objects; thin against commits 0, 30, 58) and the 0-object pack git writes when there is nothing to pack")
 	c.Bound("object_formats", []string{"sha1", "sha256"})
 	c.Bound("parser_modes", append(append([]string{}, bModeNames...), "filesystem PackfileWriter (osfs)"))
-	c.SetRule("each generated history is packed by `git pack-objects --revs --stdout` under every option combination; every DISTINCT pack is indexed by `git index-pack --rev-index` (thin packs: `--fix-thin --stdin` in a repository holding the bases) and parsed by go-git in every parser mode with an idxfile.Writer observer and through the filesystem storage's PackfileWriter; compared: .idx bytes, .rev bytes, pack checksum, the (id,type,content) set left in the storage (expected set: independent pack reader, cross-checked against git's idx names). 64-bit offset tables are NOT covered (would need a >2 GiB pack). distinct = (entries bucket, #ofs, #ref, max depth, thin, large, duplicate) classes.")
+	c.SetRule("each generated history is packed by `git pack-objects --revs --stdout` under every option combination; every DISTINCT pack is indexed by `git index-pack --rev-index` (thin packs: `--fix-thin --stdin` in a repository holding the bases) and parsed by go-git in every parser mode with an idxfile.Writer observer and through the filesystem storage's PackfileWriter; compared: .idx bytes, .rev bytes, pack checksum, the (id,type,content) set left in the storage (expected set: independent pack reader, cross-checked against git's idx names). 64-bit offset tables, crowded/empty fan-out buckets and 0/1-entry tables are covered by feeding the idx/rev writers synthetic entry tables (c08_synth.go), not by real packs. distinct = (entries bucket, #ofs, #ref, max depth, thin, large, duplicate) classes.")
 	c.Assume("pack-objects' own .idx is not used; the oracle is index-pack's output on the same bytes")
 	c.Assume("thin packs: go-git never negotiates thin packs (fetch does not request thin-pack, receive-pack advertises no-thin) and its PackfileWriter has no access to the repository, so completion is checked through Parser+WithStorage only: the pack's own entries must resolve to the objects git resolves and appear with the same offset/CRC in git's completed index")
 	t0 := c.Elapsed().Seconds()
@@ -269,6 +293,8 @@ func runC08(c *fw.Ctx) {
 		phases[name] = c.Elapsed().Seconds() - t0
 		t0 = c.Elapsed().Seconds()
 	}
+	c08Synth(c)
+	lap("synthetic")
 	var envs []*c08Env
 	for _, s := range []bool{false, true} {
 		envs = append(envs, c08Setup(c, s, maxCommits))
@@ -296,6 +322,9 @@ func runC08(c *fw.Ctx) {
 				isHead[x] = true
 			}
 			for i := range h.commits {
+				if n := len(h.commits); n > 8 && i != 0 && i != n/2 && i != n-2 {
+					continue // long histories: three thin boundaries only
+				}
 				if !isHead[i] {
 					opts = append(opts, c08Opt{10, 50, true, i}, c08Opt{10, 50, false, i})
 				}
@@ -371,6 +400,15 @@ func runC08(c *fw.Ctx) {
 			n *= 2
 			d[8], d[9], d[10], d[11] = byte(n>>24), byte(n>>16), byte(n>>8), byte(n)
 			addPack(&c08Pack{env: j.env, hist: j.h.name, opt: j.opt.String(), hand: "every entry twice", bytes: bSealPack(d, p.env.sha256)})
+		}
+	}
+	// the pack git writes when there is nothing to pack (0 objects)
+	for _, env := range envs {
+		r := env.g.C("pack.threads=1").MustRunIn(nil, "pack-objects", "--stdout", "-q")
+		if len(r.Out) > 12 && r.Out[11] == 0 {
+			addPack(&c08Pack{env: env, hist: "-", opt: "nothing to pack", hand: "no objects", bytes: r.Out})
+		} else {
+			fw.Abort("C08 set-up: pack-objects with empty input wrote %d bytes", len(r.Out))
 		}
 	}
 	c.Extra("distinct_packs", len(packs))
@@ -506,7 +544,7 @@ func c08Compare(c *fw.Ctx, p *c08Pack, dir string) {
 			big = 1
 		}
 	}
-	c.Class(fmt.Sprintf("n=%d ofs=%d ref=%d depth=%d thin=%v big=%d hand=%v", minInt(len(ents)/4, 6), minInt(nOfs, 3), minInt(nRef, 3), minInt(depth, 3), p.thin, big, p.hand != ""))
+	c.Class(fmt.Sprintf("n=%d ofs=%d ref=%d depth=%d thin=%v big=%d hand=%v", minInt(len(ents)/4, 6), minInt(nOfs, 3), minInt(nRef, 3), c08DepthClass(depth), p.thin, big, p.hand != ""))
 	c.Sample(map[string]any{"history": p.hist, "options": p.opt, "format": bFmtName(s), "entries": len(ents), "ofs": nOfs, "ref": nRef, "thin": p.thin})
 
 	modes := []int{bModeNone, bModeStream, bModeMem, bModeStreamMem, bModeFS, bModeFSHigh}
@@ -673,4 +711,12 @@ func c08DiffIdx(a, b []byte, sha256fmt bool) string {
 		}
 	}
 	return fmt.Sprintf("same entries, bytes differ at %d (%d vs %d bytes)", c08FirstDiff(a, b), len(a), len(b))
+}
+
+// c08DepthClass: 0..3 exactly, deeper chains by tens.
+func c08DepthClass(d int) int {
+	if d <= 3 {
+		return d
+	}
+	return 3 + d/10
 }
